@@ -54,7 +54,7 @@ REASM_CFG = """SPECIFICATION Spec
 CONSTANTS
   Keys = {"a", "b"}
   DLen <- %s
-  Nfbs = {1, 2}
+  Nfbs = %s
   MaxArrivals = %d
   FixEpochs = TRUE
 INVARIANTS Exact CompleteIff CovInv NoLeak NoStaleCull
@@ -109,9 +109,11 @@ def chunked_validate(out, prop, spec, path, args, chunk):
 
 def run_c11(tier, seed, out):
     log("[C11] model checking Reasm.tla (all arrival orders / duplicates / expiry callbacks)")
-    model(out, "MC_Reasm.tla", REASM_CFG % ("L34", 5 if tier == "quick" else 6), "reasm-34", workers=12, timeout=1500)
+    model(out, "MC_Reasm.tla", REASM_CFG % ("L34", "{1, 2}", 5 if tier == "quick" else 6), "reasm-34", workers=12, timeout=1500)
+    # pieces of 2 and 4 blocks: a datagram of 3 or 4 blocks also arrives WHOLE (RFC 791 steps 2-5 flush a reassembly in progress)
+    model(out, "MC_Reasm.tla", REASM_CFG % ("L34", "{2, 4}", 5 if tier == "quick" else 7), "reasm-whole", workers=12, timeout=1500)
     if tier == "thorough":
-        model(out, "MC_Reasm.tla", REASM_CFG % ("L44", 5), "reasm-44", workers=12, timeout=1500)
+        model(out, "MC_Reasm.tla", REASM_CFG % ("L44", "{1, 2}", 5), "reasm-44", workers=12, timeout=1500)
     log("[C11] the real Reassembly under random arrivals, validated by TraceReasm.tla")
     tp = os.path.join(workdir("ip-C11"), "reasm.ndjson")
     for dups in ("true", "false"):
